@@ -166,7 +166,10 @@ func runMember(t *testing.T, c *MemberCase) (term string, viols []vh.Violation, 
 					var firing []uint64
 					nf := 2 + nUpdates%3
 					if kind == "big" {
-						nf = 100
+						nf = 100 // ~1 KB: above the 700-byte threshold, below the gossip packet size
+						if nUpdates%2 == 0 {
+							nf = 300 // ~3 KB: also above MaxGossipPacketSize (the reliable path has no such limit)
+						}
 					}
 					for i := 0; i < nf; i++ {
 						firing = append(firing, 1<<63+uint64(nUpdates)*1000+uint64(i))
